@@ -66,7 +66,14 @@ func runC06(c *core.Ctx) {
 	c.Rule("R3", "count changes by exactly +1 per insertion path and -1 per successful removal path; only Clear resets it (with both ends)", 5)
 	c.Rule("R4", "empty reports exactly on the nil end; value of the removed/peeked node returned; delegating methods delegate", 7)
 	c.Rule("R5", "free-list hygiene: nodes are cleared before being pooled, reset when reused, and recycling never leaves a stale Prev/Val", 3)
-	q := func(n string) *ssa.Function { return p.Method(p.Fpgo, c06Q, n) }
+	// an exported operation that only hands its parameters on to an unexported method doing the work is read there
+	q := func(n string) *ssa.Function {
+		f := p.Method(p.Fpgo, c06Q, n)
+		if f == nil {
+			return nil
+		}
+		return core.SameParamsImpl(p, f)
+	}
 	// ---------------- R1
 	for _, spec := range []struct{ name, end, other, fwd, back string }{
 		{"Shift", "first", "last", "Next", "Prev"},
@@ -402,12 +409,13 @@ func runC06(c *core.Ctx) {
 		c.Check(okAll && nRet >= 2, "R4", c06Q+"."+spec.name, p.Pos(f.Pos()), detail, detail)
 	}
 	for _, d := range []struct{ name, to string }{{"Poll", "Shift"}, {"Take", "Poll"}, {"Put", "Offer"}, {"Push", "Offer"}} {
-		f, g := q(d.name), q(d.to)
+		f, g := p.Method(p.Fpgo, c06Q, d.name), q(d.to)
 		if f == nil || g == nil {
 			c.Unknown("R4", c06Q+"."+d.name, "-", "method not found")
 			continue
 		}
-		ok := false
+		// both may hand on to the same unexported implementation (Poll → removeFirst ← Shift)
+		ok := core.SameParamsImpl(p, f) == g
 		core.Instrs(f, func(ins ssa.Instruction) {
 			if r, isR := ins.(*ssa.Return); isR {
 				rv := core.RetVals(r)
